@@ -151,23 +151,30 @@ def idiom(F, body, s, an):
   return None
 
 
-def guard_strings(body, bb):
-  """renderings `atom==polarity` of the guards that dominate block bb (conjunctions expanded)"""
+def guard_strings(body, bb, forms=False):
+  """renderings `atom==polarity` of the guards that dominate block bb (conjunctions expanded).
+  forms=True: every comparison guard is rendered in all four equivalent spellings (a<b false = a>=b true = b<=a true = b>a false),
+  so that a pattern written against one spelling also matches a behaviour-preserving rewrite of the comparison."""
   from .guards import all_guards, expand
+  from .facts import CMP_FLIP, CMP_NEG
   gs = [g for g in all_guards(body, bb) if body.dominates(g.bb, bb)]
   out = []
   for g in expand(body, gs):
     if g.pol is None:
       # enum / integer switch: render the live labels
       out.append(f"{fmt_desc(g.atom)} in {sorted(map(str, g.live))}")
-    else:
-      out.append(f"{fmt_desc(g.atom)}=={g.pol}")
+      continue
+    out.append(f"{fmt_desc(g.atom)}=={g.pol}")
+    if forms and isinstance(g.atom, tuple) and g.atom and g.atom[0] == 'cmp':
+      _, op, a, b = g.atom
+      for o2, x, y, pol in ((CMP_FLIP[op], b, a, g.pol), (CMP_NEG[op], a, b, not g.pol), (CMP_FLIP[CMP_NEG[op]], b, a, not g.pol)):
+        out.append(f"{fmt_desc(('cmp', o2, x, y))}=={pol}")
   return out
 
 
 def requires_ok(body, s, requires):
   """every required guard pattern matches some dominating guard of the site"""
-  gs = guard_strings(body, s.bb)
+  gs = guard_strings(body, s.bb, forms=True)
   missing = [r for r in requires if not any(re.search(r, g) for g in gs)]
   return missing, gs
 
